@@ -5,6 +5,14 @@ import ast
 from harness.translate.main import unit, parse
 from harness.translate.pyx import Refuse, Tr, find_func, strip_doc, dotted
 
+
+def dn(e):
+    """dotted name of a call target, None for computed targets such as (a != 0).astype"""
+    try:
+        return dotted(e)
+    except Refuse:
+        return None
+
 ECR = ["INF", "NAN", "ZERO", "ONE", "NONE"]
 SCEN = ["NO_INSTANCES", "EMPTY_PRED", "EMPTY_REF", "NORMAL"]
 METRICS = ["DSC", "IOU", "ASSD", "clDSC", "RVD"]
@@ -37,6 +45,19 @@ def edge_case():
     # --- EdgeCaseResult.__call__ value table
     f = find_func(tree, "__call__", "EdgeCaseResult")
     b = strip_doc(f.body)
+    if len(b) == 2 and isinstance(b[0], ast.If) and isinstance(b[0].test, ast.Compare) and len(b[0].test.comparators) == 1 \
+            and isinstance(b[0].test.comparators[0], ast.Name):
+        # the table as a module-level constant (a dictionary literal bound exactly once at module level, never stored into): read it as
+        # if it were built at the start of the call -- its entries are enum member names and float constants
+        tn = b[0].test.comparators[0].id
+        binds = [n for n in tree.body if isinstance(n, (ast.Assign, ast.AnnAssign)) and ast.unparse(n.targets[0] if isinstance(n, ast.Assign) else n.target) == tn]
+        other = [n for n in ast.walk(tree) if isinstance(n, ast.Name) and n.id == tn and isinstance(n.ctx, (ast.Store, ast.Del))]
+        subs = [n for n in ast.walk(tree) if isinstance(n, ast.Subscript) and isinstance(n.ctx, (ast.Store, ast.Del)) and ast.unparse(n.value) == tn]
+        glob = [n for n in ast.walk(tree) if isinstance(n, (ast.Global, ast.Nonlocal)) and tn in n.names]
+        if len(binds) != 1 or len(other) != 1 or subs or glob or not isinstance(binds[0].value, ast.Dict):
+            raise Refuse("EdgeCaseResult.__call__: table " + tn + " is not a module constant")
+        text = ast.unparse(ast.Module(body=list(b), type_ignores=[])).replace(tn, "transfer_dict")
+        b = [ast.Assign(targets=[ast.Name(id="transfer_dict", ctx=ast.Store())], value=binds[0].value, lineno=0)] + ast.parse(text).body
     if not (len(b) == 3 and isinstance(b[0], ast.Assign) and isinstance(b[0].value, ast.Dict)):
         raise Refuse("EdgeCaseResult.__call__ shape")
     vals = {}
@@ -238,7 +259,7 @@ def result_calc():
     init = find_func(tree, "__init__", "PanopticaResult")
     wired = {}
     for n in ast.walk(init):
-        if isinstance(n, ast.Call) and dotted(n.func) == "self._add_metric" and n.args and isinstance(n.args[0], ast.Constant):
+        if isinstance(n, ast.Call) and dn(n.func) == "self._add_metric" and n.args and isinstance(n.args[0], ast.Constant):
             nm = n.args[0].value
             fn = n.args[2] if len(n.args) > 2 else None
             wired[nm] = ast.unparse(fn) if fn is not None else None
@@ -252,7 +273,7 @@ def result_calc():
     # list metric loop in the constructor: handle_zero_tp(metric=m, tp=self.tp, num_pred_instances=self.num_pred_instances, ...)
     found = False
     for n in ast.walk(init):
-        if isinstance(n, ast.Call) and dotted(n.func) == "self._edge_case_handler.handle_zero_tp":
+        if isinstance(n, ast.Call) and dn(n.func) == "self._edge_case_handler.handle_zero_tp":
             kws = {k.arg: ast.unparse(k.value) for k in n.keywords}
             if kws != {"metric": "m", "tp": "self.tp", "num_pred_instances": "self.num_pred_instances", "num_ref_instances": "self.num_ref_instances"}:
                 raise Refuse("constructor handle_zero_tp kwargs " + str(kws))
@@ -364,7 +385,17 @@ def zero_cases():
     tsrc = [ast.unparse(s) for s in tail.body]
     want = ["panoptica_result_args['global_metrics'] = global_metrics", "panoptica_result_args['num_ref_instances'] = n_reference_instance",
             "panoptica_result_args['num_pred_instances'] = n_prediction_instance", "return PanopticaResult(**panoptica_result_args)"]
-    if tsrc != want:
+    # the same call with the three entries passed as keywords next to **panoptica_result_args: equal as long as the dictionary (a
+    # literal bound once in this function) has none of these keys -- otherwise the call would raise instead of overriding
+    direct = ["return PanopticaResult(global_metrics=global_metrics, num_ref_instances=n_reference_instance, "
+              "num_pred_instances=n_prediction_instance, **panoptica_result_args)"]
+    if tsrc == direct:
+        lits = [n for n in ast.walk(f) if isinstance(n, ast.Assign) and ast.unparse(n.targets[0]) == "panoptica_result_args"]
+        stores = [n for n in ast.walk(f) if isinstance(n, ast.Subscript) and isinstance(n.ctx, ast.Store) and ast.unparse(n.value) == "panoptica_result_args"]
+        if len(lits) != 1 or stores or not isinstance(lits[0].value, ast.Dict) or not all(isinstance(k, ast.Constant) for k in lits[0].value.keys) \
+                or {k.value for k in lits[0].value.keys} & {"global_metrics", "num_ref_instances", "num_pred_instances"}:
+            raise Refuse("edge-case tail: panoptica_result_args may already hold one of the keyword arguments")
+    elif tsrc != want:
         raise Refuse("edge-case tail " + str(tsrc))
     if ast.unparse(b[6]) != "return processing_pair":
         raise Refuse("fallthrough")
